@@ -51,12 +51,14 @@ Qed.
 
 Lemma step_invA k s o s' x : step k s o = (s', x) -> invA s -> invA s'.
 Proof.
-  destruct o; try (simpl; intros H; inversion H; subst; clear H; intros Inv v Hv Hf Hd; simpl in *).
-  - injection Hv as ->. unfold has_fin. rewrite H0. exact Hf.   (* Sync *)
+  destruct o;
+    try (match goal with |- step _ _ (Rec _) = _ -> _ => idtac end;
+         destruct x as [e q]; simpl; intros H; eapply reconcile_invA; eassumption);
+    (simpl; intros H; inversion H; subst; clear H; intros Inv v Hv Hf Hd; simpl in *).
+  - rewrite Hv. exact Hf.   (* Sync *)
   - exact (Inv v Hv Hf Hd).
-  - destruct x as [e q]. simpl. intros H. eapply reconcile_invA; eassumption.
   - rewrite has_fin_del_claim. exact (Inv v Hv Hf Hd).
-  - injection Hv as ->. unfold has_fin. rewrite H0. exact Hf.   (* Restart *)
+  - rewrite Hv. exact Hf.   (* Restart *)
   - destruct (made s); [exact (Inv v Hv Hf Hd)|]. destruct (nd s); exact (Inv v Hv Hf Hd).
   - exact (Inv v Hv Hf Hd).
   - exact (Inv v Hv Hf Hd).
